@@ -101,6 +101,7 @@ type Ctx struct {
 	viols   []Violation
 	vkeys   map[string]int
 	incon   []string
+	skips   int
 	out     string
 	start   time.Time
 
@@ -207,6 +208,24 @@ func (c *Ctx) Violations() int {
 		n += v
 	}
 	return n
+}
+
+// Skip records one run of a workload whose harness-side precondition failed (a connection of the harness's own that
+// was not established, a call that belongs to another property's oracle and did not come back): nothing was observed
+// in that run and nothing is judged. Up to two such runs per phase are counted ("harness_runs_skipped") and noted;
+// from the third on the phase is inconclusive.
+func (c *Ctx) Skip(why string) {
+	c.mu.Lock()
+	c.skips++
+	n := c.skips
+	if n <= 2 {
+		c.notes[fmt.Sprintf("harness_run_skipped/%d", n)] = why
+	}
+	c.mu.Unlock()
+	c.Count("harness_runs_skipped", 1)
+	if n > 2 {
+		c.Inconclusive(fmt.Sprintf("%d runs skipped; the latest: %s", n, why))
+	}
 }
 
 func (c *Ctx) Inconclusive(why string) {
